@@ -2,7 +2,9 @@ import TplModel.Sys.FsParse
 /-! # Helper lemmas for C19 (`Sys/FsParse`)
 
 Everything is proved for `walk` from an ARBITRARY start state (so it also covers a second `Parse` on the
-same manager); `Props/C19.lean` specialises to `run` (fresh manager). Core-only. -/
+same manager); `Props/C19.lean` specialises to `run` (fresh manager).  A `define` whose name fails to evaluate
+(`none` in `Content.defines`) is one more kind of fault: `addDefines_fst`, `add_result`, `faultOf_none_iff`,
+`add_registered`/`visit_registered` (what stays registered when that fault is met).  Core-only. -/
 namespace FP
 
 /-! ## spec vocabulary -/
@@ -32,85 +34,196 @@ theorem mem_acceptedPaths {m} {es : List Entry} {p : String} :
 
 theorem NoFsFault_cons {m} {e : Entry} {es} :
     NoFsFault m (e :: es) ↔
-      (e.walkErr = false ∧ (e.accepted m = true → e.openErr = false ∧ e.content.loadErr = false)) ∧
+      (e.walkErr = false ∧
+        (e.accepted m = true → e.openErr = false ∧ e.content.loadErr = false ∧ e.content.nameErr = false)) ∧
       NoFsFault m es := by
   simp [NoFsFault]
 
+/-! ## `definedNames`: the fragment names in front of the first failing `define` name -/
+
+@[simp] theorem definedNames_nil : definedNames [] = [] := rfl
+@[simp] theorem definedNames_none (ds : List (Option String)) : definedNames (none :: ds) = [] := rfl
+@[simp] theorem definedNames_some (d : String) (ds : List (Option String)) :
+    definedNames (some d :: ds) = d :: definedNames ds := rfl
+
+theorem definedNames_map_some (l : List String) : definedNames (l.map some) = l := by
+  induction l with
+  | nil => rfl
+  | cons a l ih => simp [ih]
+
+/-- the names are a prefix of the `define`s -/
+theorem definedNames_prefix (ds : List (Option String)) : (definedNames ds).map some <+: ds := by
+  induction ds with
+  | nil => simp
+  | cons d ds ih =>
+    cases d with
+    | none => simp
+    | some d => simpa using (List.prefix_cons_inj (some d)).mpr ih
+
+/-- no `define` name fails: the names are all the `define`s, nothing is cut off -/
+theorem map_some_definedNames {ds : List (Option String)} (h : ds.contains none = false) :
+    (definedNames ds).map some = ds := by
+  induction ds with
+  | nil => rfl
+  | cons d ds ih =>
+    cases d with
+    | none => simp at h
+    | some d =>
+      have : ds.contains none = false := by simpa using h
+      simp [ih this]
+
+theorem definedNames_append_of_mem {a : List (Option String)} (h : none ∈ a) (b : List (Option String)) :
+    definedNames (a ++ b) = definedNames a := by
+  induction a with
+  | nil => cases h
+  | cons d a ih =>
+    cases d with
+    | none => rfl
+    | some d =>
+      have : none ∈ a := by simpa using h
+      simp [ih this]
+
+theorem definedNames_append_of_not_mem {a : List (Option String)} (h : none ∉ a) (b : List (Option String)) :
+    definedNames (a ++ b) = definedNames a ++ definedNames b := by
+  induction a with
+  | nil => rfl
+  | cons d a ih =>
+    cases d with
+    | none => simp at h
+    | some d =>
+      have : none ∉ a := by simpa using h
+      simp [ih this]
+
+theorem nameErr_iff (c : Content) : c.nameErr = true ↔ none ∈ c.defines := by
+  simp [Content.nameErr]
+
 /-! ## `addDefines` -/
 
-theorem addDefines_frame (s : State) (ds : List String) :
+theorem addDefines_frame (s : State) (ds : List (Option String)) :
     (addDefines s ds).2.files = s.files ∧ (addDefines s ds).2.opens = s.opens ∧
     (addDefines s ds).2.closes = s.closes := by
   induction ds generalizing s with
   | nil => simp [addDefines]
   | cons d ds ih =>
-    unfold addDefines
-    split
-    · simp
-    · simpa using ih { s with templates := s.templates ++ [d] }
+    cases d with
+    | none => simp [addDefines]
+    | some d =>
+      rw [addDefines]
+      split
+      · simp
+      · simpa using ih { s with templates := s.templates ++ [d] }
 
-theorem addDefines_result (s : State) (ds : List String) :
-    (addDefines s ds).1 = .ok ∨ (addDefines s ds).1 = .err .duplicate := by
+/-- the outcome of registering the fragments, on the input: a name clash in front of the first failing name
+    is the duplicate-name error; otherwise a failing name is the (`load`) error; otherwise success -/
+theorem addDefines_fst (s : State) (ds : List (Option String)) :
+    (addDefines s ds).1 =
+      if (definedNames ds).Nodup ∧ ∀ d ∈ definedNames ds, d ∉ s.templates then
+        (if ds.contains none then .err .load else .ok)
+      else .err .duplicate := by
   induction ds generalizing s with
   | nil => simp [addDefines]
   | cons d ds ih =>
-    unfold addDefines
-    split
-    · simp
-    · exact ih _
+    cases d with
+    | none => simp [addDefines]
+    | some d =>
+      rw [addDefines]
+      split
+      · rename_i h
+        rw [if_neg]
+        rintro ⟨_, hall⟩
+        exact hall d (by simp) h
+      · rename_i h
+        rw [ih]
+        have hc : (some d :: ds).contains none = ds.contains none := by simp
+        have hiff : ((definedNames ds).Nodup ∧
+              ∀ x ∈ definedNames ds, x ∉ ({ s with templates := s.templates ++ [d] } : State).templates) ↔
+            ((definedNames (some d :: ds)).Nodup ∧ ∀ x ∈ definedNames (some d :: ds), x ∉ s.templates) := by
+          simp only [definedNames_some, List.mem_append, List.mem_cons, List.not_mem_nil, or_false,
+            List.nodup_cons, not_or]
+          constructor
+          · rintro ⟨hnd, hall⟩
+            refine ⟨⟨fun hm => (hall d hm).2 rfl, hnd⟩, ?_⟩
+            intro x hx
+            rcases hx with rfl | hx
+            · exact h
+            · exact (hall x hx).1
+          · rintro ⟨⟨hd, hnd⟩, hall⟩
+            refine ⟨hnd, fun x hx => ⟨hall x (Or.inr hx), ?_⟩⟩
+            intro hxd; subst hxd; exact hd hx
+        rw [hc]
+        by_cases hP : (definedNames (some d :: ds)).Nodup ∧ ∀ x ∈ definedNames (some d :: ds), x ∉ s.templates
+        · rw [if_pos hP, if_pos (hiff.mpr hP)]
+        · rw [if_neg hP, if_neg (fun h' => hP (hiff.mp h'))]
 
-theorem addDefines_ok_iff (s : State) (ds : List String) :
-    (addDefines s ds).1 = .ok ↔ ds.Nodup ∧ ∀ d ∈ ds, d ∉ s.templates := by
-  induction ds generalizing s with
-  | nil => simp [addDefines]
-  | cons d ds ih =>
-    unfold addDefines
-    split
-    · rename_i h; simp [h]
-    · rename_i h
-      rw [ih]
-      simp only [List.mem_append, List.mem_cons, List.not_mem_nil, or_false, List.nodup_cons, not_or]
-      constructor
-      · rintro ⟨hnd, hall⟩
-        refine ⟨⟨fun hm => (hall d hm).2 rfl, hnd⟩, ?_⟩
-        intro x hx
-        rcases hx with rfl | hx
-        · exact h
-        · exact (hall x hx).1
-      · rintro ⟨⟨hd, hnd⟩, hall⟩
-        refine ⟨hnd, fun x hx => ⟨hall x (Or.inr hx), ?_⟩⟩
-        intro hxd; subst hxd; exact hd hx
+theorem addDefines_result (s : State) (ds : List (Option String)) :
+    (addDefines s ds).1 = .ok ∨ (addDefines s ds).1 = .err .duplicate ∨ (addDefines s ds).1 = .err .load := by
+  rw [addDefines_fst]
+  split
+  · split <;> simp
+  · simp
 
-/-- the fragments registered are a prefix of the requested ones; all of them on success -/
-theorem addDefines_templates (s : State) (ds : List String) :
-    ∃ t, (addDefines s ds).2.templates = s.templates ++ t ∧ t <+: ds ∧
-      ((addDefines s ds).1 = .ok → t = ds) := by
+theorem addDefines_ok_iff (s : State) (ds : List (Option String)) :
+    (addDefines s ds).1 = .ok ↔
+      ds.contains none = false ∧ (definedNames ds).Nodup ∧ ∀ d ∈ definedNames ds, d ∉ s.templates := by
+  rw [addDefines_fst]
+  by_cases hP : (definedNames ds).Nodup ∧ ∀ d ∈ definedNames ds, d ∉ s.templates
+  · rw [if_pos hP]
+    cases hc : ds.contains none <;> simp [hP.1] <;> exact hP.2
+  · rw [if_neg hP]
+    simp only [reduceCtorEq, false_iff]
+    rintro ⟨_, h⟩
+    exact hP h
+
+/-- the evaluation error of a `define` name is reported exactly when no name clash comes first -/
+theorem addDefines_load_iff (s : State) (ds : List (Option String)) :
+    (addDefines s ds).1 = .err .load ↔
+      ds.contains none = true ∧ (definedNames ds).Nodup ∧ ∀ d ∈ definedNames ds, d ∉ s.templates := by
+  rw [addDefines_fst]
+  by_cases hP : (definedNames ds).Nodup ∧ ∀ d ∈ definedNames ds, d ∉ s.templates
+  · rw [if_pos hP]
+    cases hc : ds.contains none <;> simp [hP.1] <;> exact hP.2
+  · rw [if_neg hP]
+    simp only [Result.err.injEq, reduceCtorEq, false_iff]
+    rintro ⟨_, h⟩
+    exact hP h
+
+/-- the fragments registered are a prefix of the requested ones; all of them (up to the first failing name)
+    unless a name clash stopped the registration -/
+theorem addDefines_templates (s : State) (ds : List (Option String)) :
+    ∃ t, (addDefines s ds).2.templates = s.templates ++ t ∧ t <+: definedNames ds ∧
+      ((addDefines s ds).1 ≠ .err .duplicate → t = definedNames ds) := by
   induction ds generalizing s with
   | nil => exact ⟨[], by simp [addDefines]⟩
   | cons d ds ih =>
-    unfold addDefines
-    split
-    · exact ⟨[], by simp⟩
-    · obtain ⟨t, h1, h2, h3⟩ := ih { s with templates := s.templates ++ [d] }
-      refine ⟨d :: t, ?_, ?_, ?_⟩
-      · simpa using h1
-      · exact List.prefix_cons_inj d |>.mpr h2
-      · intro h; rw [h3 h]
+    cases d with
+    | none => exact ⟨[], by simp [addDefines]⟩
+    | some d =>
+      rw [addDefines]
+      split
+      · exact ⟨[], by simp⟩
+      · obtain ⟨t, h1, h2, h3⟩ := ih { s with templates := s.templates ++ [d] }
+        refine ⟨d :: t, ?_, ?_, ?_⟩
+        · simpa using h1
+        · exact List.prefix_cons_inj d |>.mpr h2
+        · intro h; rw [h3 h]; rfl
 
-theorem addDefines_nodup (s : State) (ds : List String) (h : s.templates.Nodup) :
+theorem addDefines_nodup (s : State) (ds : List (Option String)) (h : s.templates.Nodup) :
     (addDefines s ds).2.templates.Nodup := by
   induction ds generalizing s with
   | nil => simpa [addDefines]
   | cons d ds ih =>
-    unfold addDefines
-    split
-    · exact h
-    · rename_i hd
-      apply ih
-      simp only [List.nodup_append]
-      refine ⟨h, by simp, ?_⟩
-      intro a ha b hb hab
-      simp at hb; subst hb; subst hab; exact hd ha
+    cases d with
+    | none => simpa [addDefines]
+    | some d =>
+      rw [addDefines]
+      split
+      · exact h
+      · rename_i hd
+        apply ih
+        simp only [List.nodup_append]
+        refine ⟨h, by simp, ?_⟩
+        intro a ha b hb hab
+        simp at hb; subst hb; subst hab; exact hd ha
 
 /-! ## `add` -/
 
@@ -143,19 +256,18 @@ theorem add_result (s : State) (n : String) (c : Content) (h : s.templates.Nodup
     (add s n c).1 =
       if n ∈ s.templates then .err .duplicate
       else if c.loadErr then .err .load
-      else if (s.templates ++ n :: c.defines).Nodup then .ok else .err .duplicate := by
+      else if (s.templates ++ n :: definedNames c.defines).Nodup then
+        (if c.nameErr then .err .load else .ok)
+      else .err .duplicate := by
   unfold add
   split
   · rfl
   · rename_i hn
     split
     · rfl
-    · have hiff := addDefines_ok_iff
-        { s with files := s.files ++ [n], templates := s.templates ++ [n] } c.defines
-      have hres := addDefines_result
-        { s with files := s.files ++ [n], templates := s.templates ++ [n] } c.defines
-      have hnd : (s.templates ++ n :: c.defines).Nodup ↔
-          c.defines.Nodup ∧ ∀ d ∈ c.defines, d ∉ s.templates ++ [n] := by
+    · rw [addDefines_fst]
+      have hnd : (s.templates ++ n :: definedNames c.defines).Nodup ↔
+          (definedNames c.defines).Nodup ∧ ∀ d ∈ definedNames c.defines, d ∉ s.templates ++ [n] := by
         simp only [List.nodup_append, List.nodup_cons, List.mem_cons, List.mem_append,
           List.not_mem_nil, or_false, not_or]
         constructor
@@ -169,36 +281,44 @@ theorem add_result (s : State) (n : String) (c : Content) (h : s.templates.Nodup
           rcases hb with rfl | hb
           · exact hn ha
           · exact (hall a hb).1 ha
-      split
-      · rename_i hN; exact hiff.mpr (hnd.mp hN)
-      · rename_i hN
-        rcases hres with hok | hdup
-        · exact absurd (hnd.mpr (hiff.mp hok)) hN
-        · exact hdup
+      by_cases hN : (s.templates ++ n :: definedNames c.defines).Nodup
+      · rw [if_pos hN, if_pos (hnd.mp hN)]; rfl
+      · rw [if_neg hN, if_neg (fun h' => hN (hnd.mpr h'))]
+
+/-- whenever `Add` gets as far as registering the file (its name is free, it loads) and is not stopped by a
+    name clash — i.e. on success AND when a `define` name fails to evaluate — the file and all its fragments
+    (up to the failing name) are registered, in order -/
+theorem add_registered (s : State) (n : String) (c : Content) (hn : n ∉ s.templates) (hl : c.loadErr = false)
+    (h : (add s n c).1 ≠ .err .duplicate) :
+    (add s n c).2.files = s.files ++ [n] ∧
+    (add s n c).2.templates = s.templates ++ n :: definedNames c.defines := by
+  unfold add at h ⊢
+  rw [if_neg hn, hl] at h ⊢
+  simp only [Bool.false_eq_true, if_false] at h ⊢
+  obtain ⟨t, h1, _, h3⟩ := addDefines_templates
+    { s with files := s.files ++ [n], templates := s.templates ++ [n] } c.defines
+  have hf := (addDefines_frame
+    { s with files := s.files ++ [n], templates := s.templates ++ [n] } c.defines).1
+  refine ⟨by simpa using hf, ?_⟩
+  rw [h1, h3 h]
+  simp
 
 /-- on success the file and all its fragments are registered, in order -/
 theorem add_ok (s : State) (n : String) (c : Content) (h : (add s n c).1 = .ok) :
-    (add s n c).2.files = s.files ++ [n] ∧ (add s n c).2.templates = s.templates ++ n :: c.defines := by
-  unfold add at h ⊢
-  split
-  · rename_i hn; simp [hn] at h
-  · rename_i hn
-    split
-    · rename_i hl; simp [hn, hl] at h
-    · rename_i hl
-      simp only [hn, hl, if_false] at h
-      obtain ⟨t, h1, _, h3⟩ := addDefines_templates
-        { s with files := s.files ++ [n], templates := s.templates ++ [n] } c.defines
-      have hf := (addDefines_frame
-        { s with files := s.files ++ [n], templates := s.templates ++ [n] } c.defines).1
-      refine ⟨by simpa using hf, ?_⟩
-      rw [h1, h3 (by simpa using h)]
-      simp
+    (add s n c).2.files = s.files ++ [n] ∧
+    (add s n c).2.templates = s.templates ++ n :: definedNames c.defines := by
+  have hn : n ∉ s.templates := by
+    intro hn; simp [add, hn] at h
+  have hl : c.loadErr = false := by
+    cases hl : c.loadErr
+    · rfl
+    · simp [add, hn, hl] at h
+  exact add_registered s n c hn hl (by rw [h]; simp)
 
 /-- in every outcome what `Add` registered is a prefix of what it was asked to register -/
 theorem add_prefix (s : State) (n : String) (c : Content) :
     ∃ f t, (add s n c).2.files = s.files ++ f ∧ f <+: [n] ∧
-      (add s n c).2.templates = s.templates ++ t ∧ t <+: n :: c.defines := by
+      (add s n c).2.templates = s.templates ++ t ∧ t <+: n :: definedNames c.defines := by
   unfold add
   split
   · exact ⟨[], [], by simp⟩
@@ -228,7 +348,9 @@ theorem visit_result (m) (s : State) (e : Entry) (h : s.templates.Nodup) :
   · simp [h1]
   · by_cases h2 : e.content.loadErr = true
     · simp [h1, h2]
-    · by_cases h3 : (s.templates ++ e.path :: e.content.defines).Nodup <;> simp [h1, h2, h3]
+    · by_cases h3 : (s.templates ++ e.path :: definedNames e.content.defines).Nodup
+      · cases h4 : e.content.nameErr <;> simp [h1, h2, h3]
+      · simp [h1, h2, h3]
 
 theorem visit_nodup (m) (s : State) (e : Entry) (h : s.templates.Nodup) :
     (visit m s e).2.templates.Nodup := by
@@ -256,6 +378,20 @@ theorem visit_ok (m) (s : State) (e : Entry) (h : (visit m s e).1 = .ok) :
   cases hw : e.walkErr <;> cases hd : e.isDir <;> cases hm : m e.path <;> cases ho : e.openErr <;>
     simp [hw, hd, hm, ho, closeFile] at h ⊢
   exact add_ok { s with opens := s.opens ++ [e.path] } e.path e.content h
+
+/-- a callback that got as far as registering the file (it matches, opens, loads, its name is free) and was
+    not stopped by a name clash — success, or a `define` name that fails to evaluate — leaves the file and all
+    of `e.names` (the fragments up to the failing name) registered -/
+theorem visit_registered (m) (s : State) (e : Entry) (hw : e.walkErr = false) (ha : e.accepted m = true)
+    (ho : e.openErr = false) (hn : e.path ∉ s.templates) (hl : e.content.loadErr = false)
+    (h : (visit m s e).1 ≠ .err .duplicate) :
+    (visit m s e).2.files = s.files ++ [e.path] ∧ (visit m s e).2.templates = s.templates ++ e.names := by
+  unfold Entry.accepted at ha
+  have hd : e.isDir = false := by cases hd : e.isDir <;> simp [hd] at ha ⊢
+  have hm : m e.path = true := by simpa [hd] using ha
+  unfold visit at h ⊢
+  simp only [hw, hd, hm, ho, Bool.false_eq_true, if_false, closeFile, Entry.names] at h ⊢
+  exact add_registered { s with opens := s.opens ++ [e.path] } e.path e.content hn hl h
 
 theorem visit_prefix (m) (s : State) (e : Entry) :
     ∃ f t, (visit m s e).2.files = s.files ++ f ∧ f <+: (if e.accepted m then [e.path] else []) ∧
@@ -413,13 +549,14 @@ theorem walk_prefix (m) (s : State) (es : List Entry) :
 theorem faultOf_none_iff (m) (seen : List String) (e : Entry) :
     faultOf m seen e = none ↔
       e.walkErr = false ∧
-      (e.accepted m = true → e.openErr = false ∧ e.content.loadErr = false ∧ (seen ++ e.names).Nodup) := by
+      (e.accepted m = true → e.openErr = false ∧ e.content.loadErr = false ∧ e.content.nameErr = false ∧
+        (seen ++ e.names).Nodup) := by
   have key : (seen ++ e.names).Nodup → e.path ∉ seen := by
     intro hnd hmem
     exact (List.nodup_append.mp hnd).2.2 _ hmem _ (by simp [Entry.names]) rfl
   unfold faultOf
   cases hw : e.walkErr <;> cases ha : e.accepted m <;> cases ho : e.openErr <;>
-    cases hl : e.content.loadErr <;> simp
+    cases hl : e.content.loadErr <;> cases hn : e.content.nameErr <;> simp
   all_goals
     by_cases h1 : e.path ∈ seen <;> by_cases h2 : (seen ++ e.names).Nodup <;> simp [h1, h2]
   all_goals exact absurd h1 (key h2)
@@ -443,7 +580,7 @@ theorem walk_ok_iff (m) (s : State) (es : List Entry) (h : s.templates.Nodup) :
       rintro ⟨⟨⟨hw, hacc⟩, _⟩, hnd⟩
       have : faultOf m s.templates e = none := by
         rw [faultOf_none_iff]
-        refine ⟨hw, fun ha => ⟨(hacc ha).1, (hacc ha).2, ?_⟩⟩
+        refine ⟨hw, fun ha => ⟨(hacc ha).1, (hacc ha).2.1, (hacc ha).2.2, ?_⟩⟩
         simp only [ha, if_true, ← List.append_assoc] at hnd
         exact (List.nodup_append.mp hnd).1
       rw [this] at hr; cases hr
@@ -460,7 +597,7 @@ theorem walk_ok_iff (m) (s : State) (es : List Entry) (h : s.templates.Nodup) :
       rw [faultOf_none_iff] at hf
       constructor
       · rintro ⟨h1, h2⟩
-        exact ⟨⟨⟨hf.1, fun ha => ⟨(hf.2 ha).1, (hf.2 ha).2.1⟩⟩, h1⟩, h2⟩
+        exact ⟨⟨⟨hf.1, fun ha => ⟨(hf.2 ha).1, (hf.2 ha).2.1, (hf.2 ha).2.2.1⟩⟩, h1⟩, h2⟩
       · rintro ⟨⟨_, h1⟩, h2⟩
         exact ⟨h1, h2⟩
 
@@ -469,7 +606,7 @@ theorem walk_err_cause (m) (s : State) (es : List Entry) (k : ErrKind) (h : (wal
     match k with
     | .walk => ∃ e ∈ es, e.walkErr = true
     | .open => ∃ e ∈ es, e.accepted m = true ∧ e.openErr = true
-    | .load => ∃ e ∈ es, e.accepted m = true ∧ e.content.loadErr = true
+    | .load => ∃ e ∈ es, e.accepted m = true ∧ (e.content.loadErr = true ∨ e.content.nameErr = true)
     | .duplicate => True := by
   induction es generalizing s with
   | nil => simp [walk] at h
@@ -499,12 +636,23 @@ theorem walk_err_cause (m) (s : State) (es : List Entry) (k : ErrKind) (h : (wal
       · split at h1
         · rename_i hl
           simp at h1; subst h1
-          exact ⟨e, by simp, by simp [Entry.accepted, hd, hm], hl⟩
-        · rcases addDefines_result
-            { files := s.files ++ [e.path], templates := s.templates ++ [e.path],
-              opens := s.opens ++ [e.path], closes := s.closes } e.content.defines with h2 | h2
-          · simp at h1; rw [h1] at h2; cases h2
-          · simp at h1; rw [h1] at h2; simp at h2; subst h2; trivial
+          exact ⟨e, by simp, by simp [Entry.accepted, hd, hm], Or.inl hl⟩
+        · simp only at h1
+          cases k' with
+          | duplicate => trivial
+          | load =>
+            have := ((addDefines_load_iff _ _).mp h1).1
+            exact ⟨e, by simp, by simp [Entry.accepted, hd, hm], Or.inr this⟩
+          | walk =>
+            rcases addDefines_result
+              { files := s.files ++ [e.path], templates := s.templates ++ [e.path],
+                opens := s.opens ++ [e.path], closes := s.closes } e.content.defines with h2 | h2 | h2 <;>
+              (rw [h1] at h2; cases h2)
+          | «open» =>
+            rcases addDefines_result
+              { files := s.files ++ [e.path], templates := s.templates ++ [e.path],
+                opens := s.opens ++ [e.path], closes := s.closes } e.content.defines with h2 | h2 | h2 <;>
+              (rw [h1] at h2; cases h2)
 
 /-- the first entry with a fault (everything before it fault-free) determines the whole outcome;
     the entries after it are never looked at -/
